@@ -146,7 +146,7 @@ pub fn build(data: &[u32]) -> Planted {
     } else {
         for level in 0..depth {
             let name = format!("fn{level}");
-            let kind = if level == 0 { 0 } else { s.below(4) };
+            let kind = if level == 0 { 0 } else { s.below(5) };
             if level == 0 {
                 lines.push(format!("{name} = |a|"));
                 filler(&mut s, &mut lines, "  ");
@@ -179,6 +179,19 @@ pub fn build(data: &[u32]) -> Planted {
                         filler(&mut s, &mut lines, "  ");
                         lines.push(format!("  r = (1, 2).each({callee}).to_tuple()"));
                         expected.push(lines.len());
+                        lines.push("  r".into());
+                    }
+                    3 => {
+                        // a call spread over several lines whose argument is a method-call chain on a
+                        // later line: the call site is the line where the call starts
+                        lines.push(format!("hp{level} ="));
+                        lines.push("  arg: |x| x".into());
+                        lines.push(format!("{name} = |a|"));
+                        filler(&mut s, &mut lines, "  ");
+                        lines.push(format!("  r = {callee}("));
+                        expected.push(lines.len());
+                        lines.push(format!("    hp{level}.arg(a)"));
+                        lines.push("  )".into());
                         lines.push("  r".into());
                     }
                     _ => {
